@@ -262,13 +262,13 @@ class CoseSecOpCtx:
     def check_secblk(self) -> bool:
         ''' Initial consistency check of :py:attr:`sec_blk`
         '''
-        type_ids = [param.type_code for param in self.sec_blk.payload.parameters]
+        type_ids = [param.type_code for param in (self.sec_blk.payload.parameters or [])]
         if len(set(type_ids)) != len(type_ids):
             LOGGER.error('Duplicate parameter IDs')
             return False
 
         for tgt_ix, target_results in enumerate(self.sec_blk.payload.results):
-            type_ids = [res.type_code for res in target_results.results]
+            type_ids = [res.type_code for res in (target_results.results or [])]
             if len(set(type_ids)) != len(type_ids):
                 LOGGER.error('Duplicate result IDs for index %d', tgt_ix)
                 return False
@@ -286,7 +286,7 @@ class CoseSecOpCtx:
         self.addl_protected = b''
         addl_unprotected = b''
         self.aad_scope = {0: 1, -1: 1, -2: 1}
-        for param in self.sec_blk.payload.parameters:
+        for param in (self.sec_blk.payload.parameters or []):
             if param.type_code == 3:
                 self.addl_protected = bytes(param.value)
             elif param.type_code == 4:
@@ -764,7 +764,7 @@ class CoseContext(AbstractContext):
         accept_ix = []
         for (tgt_ix, tgt_blk_num) in enumerate(bib.payload.targets):
             tgt_blk = ctr.block_num(tgt_blk_num)
-            result_list = bib.payload.results[tgt_ix].results
+            result_list = bib.payload.results[tgt_ix].results or []
             if len(result_list) != 1:
                 LOGGER.error('Result array in BIB num %d does not have exactly one result', bib.block_num)
                 failure = StatusReport.ReasonCode.FAILED_SEC
@@ -1076,7 +1076,7 @@ class CoseContext(AbstractContext):
         accept_ix = []
         for (tgt_ix, tgt_blk_num) in enumerate(bcb.payload.targets):
             tgt_blk = ctr.block_num(tgt_blk_num)
-            result_list = bcb.payload.results[tgt_ix].results
+            result_list = bcb.payload.results[tgt_ix].results or []
             if len(result_list) != 1:
                 LOGGER.error('Result array in BCB num %d does not have exactly one result', bcb.block_num)
                 failure = StatusReport.ReasonCode.FAILED_SEC
